@@ -1,3 +1,5 @@
+from datetime import timedelta
+
 from .base import AnalyticalPropagator
 
 
@@ -9,6 +11,9 @@ class NonePropagator(AnalyticalPropagator):
     """
 
     def propagate(self, date):
+        if isinstance(date, timedelta):
+            date = self.orbit.date + date
+
         orb = self.orbit.copy()
         orb.date = date
         return orb
